@@ -409,6 +409,24 @@ def opHeaders (j : Json) : Json :=
     ("index_of", Json.arr (names.map (fun n => jOptNat (Headers.headerIndex hs n))).toArray),
     ("by_index", Json.arr ((List.range (getNat j "width")).map (fun i => vals (.index i))).toArray)]
 
+/-! op `csv`: records and a dialect → the text `csv.writer` writes, and what `csv.reader` reads back from it.
+    op `csvread`: any text and a dialect → the records `csv.reader` yields (null = `csv.Error`) -/
+def dialectOfJson (j : Json) : Csv.Dialect :=
+  { delim := (getStr j "delim").toList.headD ',', quote := (getStr j "quote").toList.headD '"', limit := getNat j "limit" 131072 }
+
+def jsonOfCsvRead : Option (List Csv.Rec) → Json
+  | none => Json.null
+  | some rs => Json.arr (rs.map (fun r => Json.arr (r.map (fun c => toJson (String.ofList c))).toArray)).toArray
+
+def opCsv (j : Json) : Json :=
+  let d := dialectOfJson j
+  let recs : List Csv.Rec := (getArr j "recs").toList.map (fun r => (recOfJson r).map String.toList)
+  let text := Csv.render d recs
+  Json.mkObj [("text", toJson (String.ofList text)), ("read", jsonOfCsvRead (Csv.read d text))]
+
+def opCsvRead (j : Json) : Json :=
+  Json.mkObj [("read", jsonOfCsvRead (Csv.read (dialectOfJson j) (getStr j "text").toList))]
+
 /-! op `interp`: a parsed match part (as the harness reads it off the real Matcher's tree), a scan
     part, records, logic mode and run configuration → the whole run under the interpreter model -/
 partial def valueOfJson (j : Json) : Val.Value :=
@@ -569,6 +587,8 @@ def handle (line : String) : Json :=
     else if op == "archive" then opArchive j
     else if op == "chain" then opChain j
     else if op == "headers" then opHeaders j
+    else if op == "csv" then opCsv j
+    else if op == "csvread" then opCsvRead j
     else if op == "interp" then opInterp j
     else if op == "print" then opPrint j
     else if op == "parse" then opParse j
